@@ -23,14 +23,14 @@ using sim::Result;
 using sim::Rng;
 
 enum { C_PART = 0, C_QLEN, C_RECYCLE, C_ARENAS };
-enum { P_RING_INT = 0, P_RING_TRACKED, P_SV_NORMAL, P_SV_NOINIT_DESTROY, P_SV_NOINIT_NODESTROY, P_RING_TRACKED_IL, P_N };
+enum { P_RING_INT = 0, P_RING_TRACKED, P_SV_NORMAL, P_SV_NOINIT_DESTROY, P_SV_NOINIT_NODESTROY, P_RING_TRACKED_IL, P_SV_SIZE_T, P_N };
 enum {
     R_CONSTRUCT = 0, R_PUSH_BACK, R_PUSH_BACK_MOVE, R_EMPLACE_BACK, R_PUSH_FRONT, R_PUSH_FRONT_MOVE, R_EMPLACE_FRONT,
     R_POP_FRONT, R_POP_BACK, R_CLEAR, R_COPY_CTOR, R_COPY_ASSIGN, R_MOVE_CTOR, R_MOVE_ASSIGN, R_DEALLOCATE, R_ALLOCATE,
     R_COPY_TO, R_MOVE_TO, R_DESTROY, R_DEFAULT_CTOR, R_PUSH_BACK_ALIAS, R_PUSH_FRONT_ALIAS, R_EMPLACE_BACK_ARGS,
     R_EMPLACE_FRONT_ARGS, R_N
 };
-enum { V_CONSTRUCT = 0, V_MOVE_CTOR, V_MOVE_ASSIGN, V_SWAP, V_RESIZE, V_DESTROY, V_FILL, V_WRITE, V_DROP, V_N };
+enum { V_CONSTRUCT = 0, V_MOVE_CTOR, V_MOVE_ASSIGN, V_SWAP, V_RESIZE, V_DESTROY, V_FILL, V_WRITE, V_DROP, V_RESIZE_ALIAS, V_N };
 const uint32_t RECYCLE[] = {0, 300, 700, 1000};
 
 void generate(Rng& r, Workload& w, int tier) {
@@ -222,7 +222,14 @@ int val(const TrackedA& t) { return t.k(); }
 template <class T> T mk(int v);
 template <> int mk<int>(int v) { return v; }
 template <> TrackedA mk<TrackedA>(int v) { return TrackedA(v, v); }
+template <> size_t mk<size_t>(int v) { return size_t(v); }
+int val(const size_t& v) { return int(v); }
 template <class T> void assign(T& dst, int v);
+template <> void assign<size_t>(size_t& dst, int v) { dst = size_t(v); }
+// resize() with the new size given as a reference to one of the vector's own elements (only a size_t element
+// can be one): v.resize(v[k])
+template <class SV> void resize_by_own_element(SV& v, size_t k, std::true_type) { v.resize(v[k]); }
+template <class SV> void resize_by_own_element(SV& v, size_t k, std::false_type) { v.resize(size_t(val(v[k]))); }
 template <> void assign<int>(int& dst, int v) { dst = v; }
 template <> void assign<TrackedA>(TrackedA& dst, int v) { dst = TrackedA(v, v); }
 
@@ -230,13 +237,13 @@ template <class T, tlx::SimpleVectorMode Mode>
 void run_sv(const Workload& w, Result& res) {
     using SV = tlx::SimpleVector<T, Mode>;
     constexpr int NS = 3;
-    const bool tracked = !std::is_same<T, int>::value;
+    const bool tracked = std::is_same<T, TrackedA>::value;
     const bool inits = Mode == tlx::SimpleVectorMode::Normal;
     std::unique_ptr<SV> v[NS];
     std::vector<int> m[NS];
     std::vector<char> known[NS];     // element value defined (NoInit modes leave garbage)
     bool present[NS] = {false, false, false};
-    static const char* names[] = {"construct", "move_ctor", "move_assign", "swap", "resize", "destroy", "fill", "write", "drop"};
+    static const char* names[] = {"construct", "move_ctor", "move_assign", "swap", "resize", "destroy", "fill", "write", "drop", "resize_by_own_element"};
     int step = 0, next_val = 1;
     for (auto& op : w.ops) {
         if (op.empty()) continue;
@@ -264,6 +271,17 @@ void run_sv(const Workload& w, Result& res) {
                 size_t keep = std::min(n, m[i].size());
                 m[i].resize(n, 0); known[i].resize(n, inits ? 1 : 0);
                 for (size_t k = keep; k < n; ++k) { m[i][k] = 0; known[i][k] = inits ? 1 : 0; }
+                did = true;
+            }
+            break;
+        case V_RESIZE_ALIAS:
+            if (present[i] && !m[i].empty()) {
+                size_t k = size_t(next_val) % m[i].size();
+                assign<T>((*v[i])[k], int(n)); m[i][k] = int(n); known[i][k] = 1;
+                resize_by_own_element(*v[i], k, std::is_same<T, size_t>());
+                size_t keep = std::min(n, m[i].size());
+                m[i].resize(n, 0); known[i].resize(n, inits ? 1 : 0);
+                for (size_t q = keep; q < n; ++q) { m[i][q] = 0; known[i][q] = inits ? 1 : 0; }
                 did = true;
             }
             break;
@@ -305,6 +323,7 @@ void execute(const Workload& w, Result& res) {
     switch (part) {
     case P_RING_INT: res.probe("ring_int"); run_ring<int>(w, res); break;
     case P_RING_TRACKED: res.probe("ring_tracked"); run_ring<sim::Tracked>(w, res); break;
+    case P_SV_SIZE_T: res.probe("sv_normal_size_t"); run_sv<size_t, tlx::SimpleVectorMode::Normal>(w, res); break;
     case P_RING_TRACKED_IL: res.probe("ring_tracked_initializer_list_type"); run_ring<TrackedIL>(w, res); break;
     case P_SV_NORMAL: res.probe("sv_normal_tracked"); run_sv<TrackedA, tlx::SimpleVectorMode::Normal>(w, res); break;
     case P_SV_NOINIT_DESTROY: res.probe("sv_noinit_destroy"); run_sv<int, tlx::SimpleVectorMode::NoInitButDestroy>(w, res); break;
